@@ -163,7 +163,7 @@ CHECKS.update({
         technique="Lean 4 kernel-evaluated tables regenerated from the source (translator) + bit-exact replay + differential against SciPy's L-BFGS-B evaluation points",
         design_ref="DESIGN.md §4 C12"),
     "C13": dict(
-        text="Theorems over the filter model (Memory.lean filterWolfe, any arithmetic): filter_keeps_newest, filter_subsequence, filter_curvature (every retained "
+        text="redefinition_acts_as_restart (from the loop state reached right after a redefinition, going on with an update function that from now on returns its inputs and restarting without update function from the snapshot of that state compute the same thing, for any number of further iterations: composition of the identity-update and restart simulations). Theorems over the filter model (Memory.lean filterWolfe, any arithmetic): filter_keeps_newest, filter_subsequence, filter_curvature (every retained "
              "consecutive pair passes the test on the rewritten gradients), identity_filter_noop, memStep_mats_current; identity_update_transparent (a run whose "
              "update function returns its inputs returns the result of the run without it: whole-driver simulation under a memory invariant, using the "
              "IEEE-exact symmetry of the curvature test, itself a theorem in every commutative ring: curv_test_symmetric); redefinition_pairs_curvature (run level, any arithmetic: whatever the update function returns for the stored gradients, as many as it was given, the result and every callback state of a fresh run carry pairs of a non-empty history of at most maxcor+1 points whose consecutive pairs ALL pass the curvature test: whole-driver invariant). The history filter alone is "
